@@ -10,3 +10,4 @@ import Aiorpcx.C07.Props
 import Aiorpcx.C01.Props
 import Aiorpcx.C02.Props
 import Aiorpcx.C18.Props
+import Aiorpcx.C03.Props
